@@ -106,6 +106,7 @@ let run (toks : string list) : string =
           ignore (step (Hap.OConnect (conn c)))
         | ["K"; c] -> if Hashtbl.mem cnum c then (ignore (step (Hap.OClose (conn c))); Hashtbl.replace dead c true)
         | ["W"] -> ()
+        | "GCB" :: _ -> ()      (* a read callback of the application: not consulted by writes, sets and notifications *)
         | ["ST"] -> emit ("stored=" ^ String.concat "+" (L.sort compare (L.map (fun (n, _) -> hx n) (ctrl_store ()))))
         | ["TXT"] -> emit ("sf=" ^ (if ctrl_store () = [] then "1" else "0"))
         | ["CB"] ->
@@ -225,6 +226,19 @@ let run (toks : string list) : string =
             emit ("A=" ^ (match req c Hap.EAccessories with
                 | Hap.RAccessories db -> "200:" ^ String.concat "," (L.map (fun (i, v) -> cid_str i ^ "=" ^ val_str v) db)
                 | Hap.RRefused470 -> "470" | r -> resp_tlv r))
+        | ["PM"; c; entries] ->
+          if not (alive c) then emit "P=noconn" else begin
+            let es = L.map (fun e ->
+                match split_on '~' e with
+                | [id; v; ev] ->
+                  let vv = if v = "-" then None else Some (json_val v) in
+                  let e' = if ev = "1" then Some (Hap.EvBool true) else if ev = "0" then Some (Hap.EvBool false) else None in
+                  ((cid_of id, vv), e')
+                | _ -> failwith "bad PM entry") (split_on '+' entries) in
+            emit ("P=" ^ (match req c (Hap.ECharsPut es) with
+                | Hap.RNoContent -> "204:" | Hap.RChars (st, es) -> Printf.sprintf "%d:%s" (int_of_n st) (entries_str es)
+                | Hap.RRefused470 -> "470" | r -> resp_tlv r))
+          end
         | "P" :: c :: id :: rest ->
           if not (alive c) then emit "P=noconn" else begin
             let n = L.length rest in
